@@ -588,6 +588,17 @@ func (f *family) runBatch(peg string, cases []*gcase, vs []variant, bno int) {
 				break
 			}
 		}
+		// an error returned for one input and kept by the caller still says the same after the parser went on to other inputs
+		if k, got, want, bad := keptErrorChanged(hr.Hist, hr.LateErr); bad {
+			var hist []string
+			for _, x := range hentries[hk.ci] {
+				hist = append(hist, cs.entries[x].input)
+			}
+			f.c.run.Violate("kept-error:"+id, fmt.Sprintf("the error returned for step %d reads differently once the same parser has been reset with later inputs (config %s)", k, cf.name),
+				map[string]any{"grammar": cs.text, "config": cf.name, "history": hist, "step": k, "message_when_returned": want, "message_after_the_history": got})
+		} else if len(hr.LateErr) > 0 {
+			f.c.run.Count("errors_kept_across_later_inputs", len(hr.LateErr))
+		}
 	}
 	for ci, cs := range cases {
 		for ei, e := range cs.entries {
@@ -689,4 +700,23 @@ func tractable(g *gram.Grammar, start string, inputs []string) []string {
 		}
 	}
 	return out
+}
+
+// keptErrorChanged compares the message every failed step of a history had when it was returned with the message
+// the same error value gives after the whole history (late: one entry per failed step, in order).
+func keptErrorChanged(hist []corpus.Res, late []string) (step int, got, want string, bad bool) {
+	j := 0
+	for k := range hist {
+		if hist[k].OK || hist[k].Panic != "" || hist[k].ErrType == "" {
+			continue
+		}
+		if j >= len(late) {
+			return
+		}
+		if late[j] != hist[k].Err {
+			return k, late[j], hist[k].Err, true
+		}
+		j++
+	}
+	return
 }
